@@ -164,6 +164,25 @@ CHECKS = {
              "real pre-productmd reader and compared with the tree.",
         note="Trusted: TLC, independent INI reader. Dashed variants keyed by id excluded (F-04b, reported under C04).",
         design="4 C17"),
+    "C05": dict(
+        technique="TLA+ version-table spec Upgrade.tla (Down steps per format/version, consistency checked by TLC) driving down-conversion of the documents enumerated by the document specs; real loaders compared fact by fact; fixture corpus",
+        text="Upgrade.tla states what a document of each older version lacks, renames or lays out differently and what each missing fact becomes; "
+             "TLC checks Monotone, OnceOnly, DropsHaveDefaults, EveryOldVersionDiffers and emits the steps per (format, version). Objects "
+             "enumerated by ComposeInfoDoc/ImagesDoc/RpmsGen/TreeInfoDoc are written by the real code, down-converted by independent JSON/INI "
+             "editing to composeinfo 0.0/0.2/0.3/1.0/1.1, images 1.0/1.1, rpms 0.3/1.0/1.1, treeinfo 0.0/0.3/1.0/1.1, loaded and compared fact by "
+             "fact (dropped facts take their documented default), then written (current version + type), re-read and re-written byte for "
+             "byte; every shipped treeinfo/discinfo/images/composeinfo fixture goes through the same idempotence facts. An acceptance probe "
+             "per version guards against vacuity. Known finding F-05b by signature.",
+        note="Trusted: TLC, the Python implementation of each Down step, the generators of C01-C04. Documents the library rejects in an old version are outside the claim.",
+        design="4 C05"),
+    "C08": dict(
+        technique="TLA+ confluence spec Canon.tla (insertion histories over a content set, repeated dumps): TLC enumerates all N! histories; replayed per part kind on the real classes in separate interpreters per PYTHONHASHSEED",
+        text="TLC enumerates every insertion order of 4 (quick) / 5 parts followed by 2-3 dumps; for 11 unordered part kinds of the quantifier "
+             "each history is replayed on the real classes in fresh interpreters with PYTHONHASHSEED in {0,1,2} (quick) or "
+             "{0,1,2,3,7,42,12345,random}; all outputs of one content class must be byte-identical across orders, repeated dumps and hash "
+             "seeds; JSON must be key-sorted with indent 4, treeinfo sections/options sorted (independent reader).",
+        note="Trusted: TLC, one fixed content per part kind (5 parts).",
+        design="4 C08"),
 }
 
 
